@@ -65,7 +65,8 @@ def read(x, what="", check_valid=True):
                 raise Violation("closure:%s" % what, "result of %s is an invalid array: %s" % (what, err[:300]), clause="C11-closure")
         try:
             T, v = D.value_of(lay)
-        except M.Invalid as e:
+        except (M.Invalid, ValueError) as e:
+            # ValueError: the library refuses to walk its own result (e.g. a negative length)
             raise Violation("closure:%s:unevaluable" % what, "result of %s cannot be evaluated: %s" % (what, e), clause="C11-closure")
         if isinstance(x, (A.Array, A.Record)):
             pv = pyvalue(A.to_list(x))
@@ -74,6 +75,17 @@ def read(x, what="", check_valid=True):
                                 expected=M.jsonable(v), observed=M.jsonable(pv))
         return T, v
     return None, pyvalue(x)
+
+
+def _is_shim_class(name):
+    import importlib
+    for modname in ("akshim.typesforms", "akshim.virtual", "akshim.builder", "akshim.jsonio", "akshim.forth"):
+        try:
+            if hasattr(importlib.import_module(modname), name):
+                return True
+        except ImportError:
+            pass
+    return False
 
 
 def outcome(fn):
@@ -87,7 +99,24 @@ def outcome(fn):
         return ("ok", fn())
     except (BridgeMisuse, HarnessError, Violation):
         raise
-    except (AttributeError, NotImplementedError):
+    except NotImplementedError as e:
+        if "is not available in the /verif emulation" in str(e) or "not supported by the /verif emulation" in str(e):
+            raise
+        frames = traceback.extract_tb(e.__traceback__)
+        inner = frames[-1].filename if frames else ""
+        if "/akshim/" in inner:
+            raise
+        return (type(e).__name__, str(e))     # e.g. pyarrow.lib.ArrowNotImplementedError
+    except AttributeError as e:
+        # a missing attribute of one of the emulation's own classes is a gap of the emulation (harness error);
+        # an AttributeError about any other object, raised in the library's code, is the library's
+        import re
+        from akshim import layout as L
+        m = re.match(r"'(\w+)' object has no attribute", str(e))
+        frames = traceback.extract_tb(e.__traceback__)
+        inner = frames[-1].filename if frames else ""
+        if m and inner.startswith(REPO) and m.group(1) not in L._CLASSES and not hasattr(L, m.group(1)) and not _is_shim_class(m.group(1)):
+            return (type(e).__name__, str(e))
         raise
     except Exception as e:  # noqa: B902
         frames = traceback.extract_tb(e.__traceback__)
